@@ -54,7 +54,7 @@ func c20(ctx *Ctx) {
 	for _, s := range []string{"host.example:80", "[fe80::1%eth0]:80", ":80", "1.2.3.4.5:80", "256.1.1.1:1", "[2001:db8::zz]:80", "localhost:1"} {
 		addrs = append(addrs, a{2, s, big.NewInt(0)})
 	}
-	ipStr := func(ip net.IP) string { return net.JoinHostPort(ip.String(), fmt.Sprint(1 + r.Intn(65000))) }
+	ipStr := func(ip net.IP) string { return net.JoinHostPort(ip.String(), fmt.Sprint(1+r.Intn(65000))) }
 	v4s := []string{"0.0.0.0", "127.0.0.1", "127.255.255.255", "169.254.1.1", "224.0.0.1", "239.255.255.255", "255.255.255.255",
 		"10.0.0.1", "192.168.1.1", "100.64.0.1", "8.8.8.8", "203.0.113.77", "1.1.1.1", "128.0.0.1", "240.0.0.1", "169.253.255.255", "223.255.255.255"}
 	for _, s := range v4s {
